@@ -91,3 +91,128 @@ func H_C16_odt_package() {
 	vAssert("footer-read", len(r.footerTexts) == 1 && r.footerTexts[0] == "RunningFooterText")
 	vReach("end")
 }
+
+// H_C15_odt_package_markdown: the Markdown of a whole ODT package keeps structure: ATX headings of the source level
+// (capped at 6), list items in order with nesting depth and ordered/unordered kind, tables as pipe tables, no text lost.
+//
+//symgo:harness prop=C15 kernel=K3-odt-package-markdown noreplay=1
+//symgo:redirect archive/zip.OpenReader vStubOpenZip
+//symgo:desc zip layer cut (member content model); content.xml with automatic list styles L1 (numbered at level 1, bullets at level 2) and L2 (bullets) and a body of 2 quick / 2..3 thorough elements out of: heading of outline level 1..3, heading of outline level 8 (to be capped at 6), paragraph with a span, a three-item list in style L1 or L2 (enumerated) whose middle item sits in a nested list, a 2x2 table with a pipe in one cell (enumerated): Markdown(): every body text exactly once and in source order; heading lines are '#' x min(level,6) + text; list lines are "<number>. " or "- " by the list style's kind for that level, indented two spaces per level; the table is one pipe table read back by the reference GFM reader
+func H_C15_odt_package_markdown() {
+	n := vAnyIntIn(2, 2+vTier())
+	type exp struct {
+		kind  string
+		text  string
+		level int
+	}
+	var want []exp
+	body := ""
+	for i := 0; i < n; i++ {
+		w := "txt" + string(rune('A'+i))
+		switch vAnyIntIn(0, 4) {
+		case 0:
+			lvl := vAnyIntIn(1, 3)
+			body += `<text:h text:style-name="Heading_20_` + string(rune('0'+lvl)) + `" text:outline-level="` + string(rune('0'+lvl)) + `">` + w + `</text:h>`
+			want = append(want, exp{"h", w, lvl})
+		case 1:
+			body += `<text:h text:outline-level="8">` + w + `</text:h>`
+			want = append(want, exp{"h", w, 8})
+		case 2:
+			body += `<text:p text:style-name="P1">` + w + ` <text:span text:style-name="T1">mid</text:span> end</text:p>`
+			want = append(want, exp{"p", w + " mid end", 0})
+		case 3:
+			style, k0, k1 := "L1", "ol", "ul"
+			if vAnyIntIn(0, 1) == 1 {
+				style, k0, k1 = "L2", "ul", "ul"
+			}
+			body += `<text:list text:style-name="` + style + `"><text:list-item><text:p>` + w + `0</text:p><text:list><text:list-item><text:p>` + w + `1</text:p></text:list-item></text:list></text:list-item><text:list-item><text:p>` + w + `2</text:p></text:list-item></text:list>`
+			want = append(want, exp{k0, w + "0", 0}, exp{k1, w + "1", 1}, exp{k0, w + "2", 0})
+		default:
+			body += `<table:table table:name="T"><table:table-column table:number-columns-repeated="2"/><table:table-row><table:table-cell><text:p>` + w + `a</text:p></table:table-cell><table:table-cell><text:p>` + w + `b|c</text:p></table:table-cell></table:table-row><table:table-row><table:table-cell><text:p>` + w + `d</text:p></table:table-cell><table:table-cell><text:p>` + w + `e</text:p></table:table-cell></table:table-row></table:table>`
+			want = append(want, exp{"tbl", w, 0})
+		}
+	}
+	content := `<?xml version="1.0" encoding="UTF-8"?><office:document-content ` + vOdtNS + ` office:version="1.2"><office:automatic-styles>` +
+		`<style:style style:name="P1" style:family="paragraph" style:parent-style-name="Standard"/><style:style style:name="T1" style:family="text"><style:text-properties fo:font-weight="bold"/></style:style>` +
+		`<text:list-style style:name="L1"><text:list-level-style-number text:level="1" style:num-format="1" style:num-suffix="."/><text:list-level-style-bullet text:level="2" text:bullet-char="&#9702;"/></text:list-style>` +
+		`<text:list-style style:name="L2"><text:list-level-style-bullet text:level="1" text:bullet-char="&#8226;"/><text:list-level-style-bullet text:level="2" text:bullet-char="&#9702;"/></text:list-style>` +
+		`</office:automatic-styles><office:body><office:text>` + body + `</office:text></office:body></office:document-content>`
+	vZip = &zip.ReadCloser{}
+	vMember("mimetype", "application/vnd.oasis.opendocument.text")
+	vMember("content.xml", content)
+	vMember("styles.xml", `<?xml version="1.0" encoding="UTF-8"?><office:document-styles `+vOdtNS+` office:version="1.2"><office:styles><style:style style:name="Standard" style:family="paragraph" style:class="text"/></office:styles></office:document-styles>`)
+	r, err := Open("any.odt")
+	vAssert("opens", err == nil && r != nil)
+	md, merr := r.Markdown()
+	vAssert("markdown-no-error", merr == nil)
+	lines := strings.Split(md, "\n")
+	li := 0
+	for _, w := range want {
+		switch w.kind {
+		case "h", "p":
+			prefix := ""
+			if w.kind == "h" {
+				lvl := w.level
+				if lvl > 6 {
+					lvl = 6
+				}
+				prefix = strings.Repeat("#", lvl) + " "
+			}
+			k := -1
+			for q := li; q < len(lines) && k < 0; q++ {
+				if lines[q] == prefix+w.text {
+					k = q
+				}
+			}
+			vAssert("heading-or-paragraph-line-in-order", k >= 0)
+			li = k + 1
+		case "ol", "ul":
+			indent := strings.Repeat("  ", w.level)
+			k := -1
+			for q := li; q < len(lines) && k < 0; q++ {
+				ln := lines[q]
+				if !strings.HasPrefix(ln, indent) || strings.HasPrefix(ln, indent+" ") {
+					continue
+				}
+				rest := ln[len(indent):]
+				if w.kind == "ul" {
+					if rest == "- "+w.text {
+						k = q
+					}
+					continue
+				}
+				d := 0
+				for d < len(rest) && rest[d] >= '0' && rest[d] <= '9' {
+					d++
+				}
+				if d > 0 && rest[d:] == ". "+w.text {
+					k = q
+				}
+			}
+			vAssert("list-item-order-nesting-and-kind", k >= 0)
+			li = k + 1
+		default:
+			k := -1
+			for q := li; q < len(lines) && k < 0; q++ {
+				if strings.HasPrefix(lines[q], "|") {
+					k = q
+				}
+			}
+			vAssert("table-present-in-order", k >= 0)
+			e := k
+			for e < len(lines) && strings.HasPrefix(lines[e], "|") {
+				e++
+			}
+			got, ok := vGFMParse(strings.Join(lines[k:e], "\n") + "\n")
+			vAssert("table-is-one-pipe-table", ok && len(got) == 2 && len(got[0]) == 2 && len(got[1]) == 2)
+			vAssert("table-cell-texts", got[0][0] == w.text+"a" && got[0][1] == w.text+"b|c" && got[1][0] == w.text+"d" && got[1][1] == w.text+"e")
+			li = e
+		}
+	}
+	for _, w := range want {
+		if w.kind != "tbl" {
+			vAssert("no-body-text-lost-or-doubled", strings.Count(md, w.text) == 1)
+		}
+	}
+	vReach("end")
+}
